@@ -89,6 +89,35 @@ Proof.
   apply (quantile_monotone_in_q xs (1 # 4) (3 # 4) b a); [discriminate | exact B1 | exact A1].
 Qed.
 
+(* Sample.Sorted (on ascending data) does not change the rules: same squared scale estimate *)
+Theorem bandwidth_rules_sorted_flag (xs : list Q) : (2 <= length xs)%nat -> ascending xs ->
+  bandwidth_silverman10 (marked_sorted xs) = bandwidth_silverman10 (unsorted xs) /\
+  exists v v' : Q, bandwidth_scott10 (marked_sorted xs) = BwPow10 v /\
+                   bandwidth_scott10 (unsorted xs) = BwPow10 v' /\ v == v'.
+Proof.
+  intros L A. split; [reflexivity|].
+  assert (Hne : xs <> []) by (destruct xs; [cbn in L; lia | discriminate]).
+  destruct third_f_range as [T0 T1].
+  destruct (quantile_sorted_hf third_f xs (3 # 4) T0 T1 Hne A) as [a [A1 A2]].
+  destruct (quantile_sorted_hf third_f xs (1 # 4) T0 T1 Hne A) as [b [B1 B2]].
+  destruct (quantile_code_hf xs (3 # 4) Hne) as [a' [A1' A2']].
+  destruct (quantile_code_hf xs (1 # 4) Hne) as [b' [B1' B2']].
+  destruct (scott_rule (marked_sorted xs) a b eq_refl L A1 B1) as [v [V1 V2]].
+  destruct (scott_rule (unsorted xs) a' b' eq_refl L A1' B1') as [v' [V1' V2']].
+  exists v, v'. split; [exact V1|]. split; [exact V1'|].
+  cbv zeta in V2, V2'. rewrite V2, V2'. cbn [s_xs marked_sorted unsorted].
+  assert (Ea : a == a') by (rewrite A2, A2'; reflexivity).
+  assert (Eb : b == b') by (rewrite B2, B2'; reflexivity).
+  assert (Er : (a - b) / (1349 # 1000) * ((a - b) / (1349 # 1000)) == (a' - b') / (1349 # 1000) * ((a' - b') / (1349 # 1000)))
+    by (rewrite Ea, Eb; reflexivity).
+  unfold rule10. apply Qdiv_comp; [|reflexivity]. apply Qmult_comp; [reflexivity|].
+  apply Qpower_nat_comp. unfold Qminb.
+  destruct (Qle_bool (var_def xs) ((a - b) / (1349 # 1000) * ((a - b) / (1349 # 1000)))) eqn:C1;
+    destruct (Qle_bool (var_def xs) ((a' - b') / (1349 # 1000) * ((a' - b') / (1349 # 1000)))) eqn:C2;
+    try reflexivity; try exact Er; try (symmetry; exact Er);
+    rewrite Er in C1; congruence.
+Qed.
+
 (* the rules are not defined for an empty sample (NaN) and panic for a weighted one
    (Sample.StdDev: "not implemented") *)
 Theorem bandwidth_rules_undefined :
